@@ -185,7 +185,7 @@ func (vc *VC) val(v ssa.Value) Term {
 			vc.failf("global %s without object", x.Name())
 		}
 		elem := x.Type().(*types.Pointer).Elem()
-		if _, ok := isStruct(elem); ok {
+		if subObject(elem) {
 			return Term{S: vc.globalRef(o), Sort: "Int", T: x.Type()}
 		}
 		return Term{S: vc.globalRef(o), Sort: "Int", T: x.Type(), Loc: &Loc{Kind: locGlobal, Global: vc.globalName(o), ElemT: elem}}
@@ -793,7 +793,7 @@ func (vc *VC) instr(st *State, in ssa.Instruction, guard string) {
 		structT := pt.Elem()
 		s, _ := isStruct(structT)
 		ft := s.Field(x.Field).Type()
-		if base.Loc != nil && (base.Loc.Kind == locElem || base.Loc.Kind == locGlobal || (base.Loc.Kind == locCell && len(base.Loc.Sub) >= 0 && base.Loc.ElemT != nil && isStructT(base.Loc.ElemT))) {
+		if base.Loc != nil && (base.Loc.Kind == locElem || base.Loc.Kind == locGlobal || base.Loc.Kind == locField || (base.Loc.Kind == locCell && len(base.Loc.Sub) >= 0 && base.Loc.ElemT != nil && isStructT(base.Loc.ElemT))) {
 			// address of a field inside a struct value stored as a whole
 			l := *base.Loc
 			l.Sub = append(append([]int{}, l.Sub...), x.Field)
@@ -802,7 +802,12 @@ func (vc *VC) instr(st *State, in ssa.Instruction, guard string) {
 			return
 		}
 		vc.checkNonNil(base, vc.srcLabel(x), x.Pos(), guard)
-		if _, isS := isStruct(ft); isS {
+		if base.Loc == nil && valueStruct(structT) {
+			// pointer to a value-like struct: the whole value lives in a cell
+			vc.vals[x] = Term{S: "0", Sort: "Int", T: x.Type(), Loc: &Loc{Kind: locCell, Base: base, ElemT: structT, Sub: []int{x.Field}, SubT: []types.Type{structT}}}
+			return
+		}
+		if subObject(ft) {
 			vc.define(x, Term{S: sx(vc.subFun(structT, x.Field), base.S), Sort: "Int", T: x.Type()})
 			return
 		}
@@ -865,7 +870,7 @@ func (vc *VC) instr(st *State, in ssa.Instruction, guard string) {
 		vc.sliceOp(st, x, guard)
 	case *ssa.Store:
 		addr := vc.val(x.Addr)
-		if addr.Loc == nil || addr.Loc.Kind == locCell {
+		if addr.Loc == nil {
 			vc.checkNonNil(addr, vc.srcLabel(x), x.Pos(), guard)
 		}
 		vc.store(st, addr, vc.val(x.Val))
@@ -937,7 +942,7 @@ func (vc *VC) alloc(st *State, x *ssa.Alloc) {
 	}
 	vc.zeroInit(st, r, elem)
 	t := Term{S: r, Sort: "Int", T: x.Type()}
-	if !isStructT(elem) {
+	if !subObject(elem) {
 		t.Loc = &Loc{Kind: locCell, Base: Term{S: r, Sort: "Int"}, ElemT: elem}
 	}
 	vc.define(x, t)
@@ -1090,7 +1095,7 @@ func (vc *VC) unop(st *State, x *ssa.UnOp, guard string) {
 	case token.XOR:
 		vc.define(x, Term{S: wrap(x.Type(), sx("-", sx("-", a.S), "1")), Sort: "Int", T: x.Type()})
 	case token.MUL:
-		if a.Loc == nil || a.Loc.Kind == locCell {
+		if a.Loc == nil {
 			vc.checkNonNil(a, vc.srcLabel(x), x.Pos(), guard)
 		}
 		a.T = x.X.Type()
